@@ -159,6 +159,20 @@ func (monC19) TaskEnd(s *Sim, t *Task) {
 				bad("changed %s", d)
 			}
 		}
+		// (judged when nobody else wrote the object between the command's read and its patch: the
+		// patch is a diff against what was read)
+		if (t.Cmd == "canary-pause" || t.Cmd == "canary-unpause") && mstr(meta(toMap(c.Pre)), "resourceVersion") == v.EDS.ResourceVersion {
+			// the documented values: pause = (paused true, unpaused not true); unpause = (paused false, unpaused true)
+			post := &edsv1.ExtendedDaemonSet{}
+			_ = json.Unmarshal(c.Out, post)
+			pa, un := post.Annotations[edsv1.ExtendedDaemonSetCanaryPausedAnnotationKey], post.Annotations[edsv1.ExtendedDaemonSetCanaryUnpausedAnnotationKey]
+			if t.Cmd == "canary-pause" && (pa != "true" || un == "true") {
+				bad("after canary pause the annotations are canary-paused=%q canary-unpaused=%q", pa, un)
+			}
+			if t.Cmd == "canary-unpause" && (pa == "true" || un != "true") {
+				bad("after canary unpause the annotations are canary-paused=%q canary-unpaused=%q", pa, un)
+			}
+		}
 		if t.Cmd == "canary-validate" {
 			post := &edsv1.ExtendedDaemonSet{}
 			_ = json.Unmarshal(c.Out, post)
